@@ -309,16 +309,27 @@ def execFailed (s : State) (r : Req) (k : Nat) (ser : Nat) : State :=
   let _ := k
   (markFailed s1 r.id).getD s1
 
-/-- `_execute_uod_command` (+ the handler of `_execute_command`); `true` = an exception leaves the loop. -/
-def executeUod (s : State) (r : Req) (k : Nat) : State × Bool :=
-  let s := cancelSame r k s.executing s
-  let s := cancelOverlap r k s.executing s
-  let (s, c) :=
-    match findLive s.objs k with
-    | some c => (s, c)
-    | none =>
-      let c : Cmd := { name := k, serial := s.objs.length, owner := r.id }
-      ({ s with objs := s.objs ++ [c] }, c)
+/-- "create or get command instance" -/
+def obtainCmd (s : State) (r : Req) (k : Nat) : State × Cmd :=
+  match findLive s.objs k with
+  | some c => (s, c)
+  | none =>
+    let c : Cmd := { name := k, serial := s.objs.length, owner := r.id }
+    ({ s with objs := s.objs ++ [c] }, c)
+
+/-- after a successful iteration: "if uod_command.is_execution_complete() and not uod_command.is_finalized()" -/
+def finishCmd (s : State) (r : Req) (k : Nat) (ser : Nat) : State × Bool :=
+  match getObj s.objs ser with
+  | some o =>
+    if o.complete && !o.finalized then
+      match markCompleted s r.id with
+      | none => (execFailed s r k ser, true)
+      | some s => (finalizeCommand s r o, false)
+    else (s, false)
+  | none => (s, false)
+
+/-- "execute command state flow" of `_execute_uod_command` for the instance `c` -/
+def runCmd (s : State) (r : Req) (k : Nat) (c : Cmd) : State × Bool :=
   if c.cancelled then
     (if !c.finalized then finalizeCommand s r c else s, false)
   else
@@ -336,15 +347,14 @@ def executeUod (s : State) (r : Req) (k : Nat) : State × Bool :=
     match run with
     | none => (execFailed s r k c.serial, true)
     | some (s, true) => (execFailed s r k c.serial, true)
-    | some (s, false) =>
-      match getObj s.objs c.serial with
-      | some o =>
-        if o.complete && !o.finalized then
-          match markCompleted s r.id with
-          | none => (execFailed s r k c.serial, true)
-          | some s => (finalizeCommand s r o, false)
-        else (s, false)
-      | none => (s, false)
+    | some (s, false) => finishCmd s r k c.serial
+
+/-- `_execute_uod_command` (+ the handler of `_execute_command`); `true` = an exception leaves the loop. -/
+def executeUod (s : State) (r : Req) (k : Nat) : State × Bool :=
+  let s1 := cancelSame r k s.executing s
+  let s2 := cancelOverlap r k s1.executing s1
+  let p := obtainCmd s2 r k
+  runCmd p.1 r k p.2
 
 /-! ### Start / Stop / Restart -/
 
@@ -449,44 +459,50 @@ def user (s : State) (n : Name) : State × Reply :=
       if !valid then (s, .err)
       else ({ s with nextId := s.nextId + 1, queue := s.queue ++ [⟨s.nextId, n⟩] }, .ok)
 
+/-- `Tracking.get_command(instance_id)`: the command object stored with the record, if it has started. -/
+def trackObj (s : State) (t : Track) : Option Cmd :=
+  match t.cmd with
+  | some ser => getObj s.objs ser
+  | none => none
+
+/-- `cancel_instruction` for an id whose record holds the command `o`. -/
+def cancelStarted (s : State) (i : Nat) (o : Cmd) : State × Reply :=
+  if s.cfg.fixInstr && o.finalized then (s, .err)
+  else
+    let req := if s.cfg.fixInstr then s.executing.find? (fun r => r.id == i)
+               else s.executing.find? (fun r => !isDone s r && r.name == .uod o.name)
+    match req with
+    | some r => (commit (cancelCommand s r), .ok)
+    | none =>
+      -- best effort clean-up when the request is gone
+      let s1 := { s with objs := modObj s.objs o.serial (fun o => { o with cancelled := true }) }
+      match markCancelled s1 o.owner true with
+      | none => (s1, .err)
+      | some s2 => (commit (if !o.finalized then finalizeObj s2 { o with cancelled := true } else s2), .ok)
+
 /-- `cancel_instruction`. -/
 def cancel (s : State) (i : Nat) : State × Reply :=
   match getTrack s.track i with
   | none => (s, .err)
   | some t =>
-    match t.cmd with
-    | some ser =>
-      match getObj s.objs ser with
-      | none => (s, .err)
-      | some o =>
-        if s.cfg.fixInstr && o.finalized then (s, .err)
-        else
-          let req := if s.cfg.fixInstr then s.executing.find? (fun r => r.id == i)
-                     else s.executing.find? (fun r => !isDone s r && r.name == .uod o.name)
-          match req with
-          | some r => (commit (cancelCommand s r), .ok)
-          | none =>
-            -- best effort clean-up when the request is gone
-            let s1 := { s with objs := modObj s.objs ser (fun o => { o with cancelled := true }) }
-            match markCancelled s1 o.owner true with
-            | none => (s1, .err)
-            | some s2 => (commit (if !o.finalized then finalizeObj s2 { o with cancelled := true } else s2), .ok)
+    match trackObj s t with
+    | some o => cancelStarted s i o
     | none =>
-      match markCancelled s i true with
-      | none => (s, .err)
-      | some s' => (commit s', .ok)
+      match t.cmd with
+      | some _ => (s, .err)
+      | none =>
+        match markCancelled s i true with
+        | none => (s, .err)
+        | some s' => (commit s', .ok)
 
 /-- `force_instruction` (`UodCommand.force()` does nothing). -/
 def force (s : State) (i : Nat) : State × Reply :=
   match getTrack s.track i with
   | none => (commit s, .ok)       -- unknown id: logged, answered with success
   | some t =>
-    let target := match t.cmd with
-      | some ser => (match getObj s.objs ser with | some o => o.owner | none => i)
-      | none => i
-    let ended := match t.cmd with
-      | some ser => (match getObj s.objs ser with | some o => o.finalized | none => false)
-      | none => false
+    let o := trackObj s t
+    let ended := match o with | some o => o.finalized | none => false
+    let target := match o with | some o => o.owner | none => i
     if s.cfg.fixInstr && ended then (s, .err)
     else
       match markForced s target with
